@@ -814,9 +814,13 @@ func mergeMaps(dst, src map[string]any) (map[string]any, bool) {
 		return dst, changed
 	}
 
-	if dst == nil {
-		dst = make(map[string]any)
+	// The result is a new map: dst is the value the caller still holds (the cached Public or Private of a topic)
+	// and must stay as it is until the change has been validated and stored.
+	merged := make(map[string]any, len(dst)+len(src))
+	for key, val := range dst {
+		merged[key] = val
 	}
+	dst = merged
 
 	for key, val := range src {
 		xval := reflect.ValueOf(val)
